@@ -26,3 +26,26 @@ Definition stage_pattern (l : lang) (ty tok : str) : tres :=
 
 Definition reserved_lang (l : lang) (t : str) : bool := is_reserved (cfg_of l) t.
 Definition pattern_lang (l : lang) (ty t : str) : bool := matches_reserved_pattern py_uni (cfg_of l) ty t.
+
+(* ---- configuration overrides as data (Generated/Gen_Strop.v: cfgs_ov); index 0 = the shipped configuration ---- *)
+Definition pick (l : lang) (t : strop_cfg * strop_cfg * strop_cfg) : strop_cfg :=
+  match t, l with (c, _, _), LC => c | (_, c, _), LCpp => c | (_, _, c), LPy => c end.
+
+Definition cfg_sel (k : nat) (l : lang) : strop_cfg :=
+  match k with
+  | O => cfg_of l
+  | S k' => match nth_error cfgs_ov k' with Some t => pick l t | None => cfg_of l end
+  end.
+
+Definition strop_sel (k : nat) (l : lang) : str -> str -> res := strop py_uni py_isspace (cfg_sel k l).
+Definition sel_encode (k : nat) (l : lang) (ty tok : str) : tres :=
+  do_for_type_and_all (encode py_uni py_isspace (cfg_sel k l)) tok (lower ty) false.
+Definition sel_keyword (k : nat) (l : lang) (ty tok : str) : tres :=
+  do_for_type_and_all (strop_by_keyword (cfg_sel k l)) tok (lower ty) false.
+Definition sel_pattern (k : nat) (l : lang) (ty tok : str) : tres :=
+  do_for_type_and_all (strop_by_pattern py_uni (cfg_sel k l)) tok (lower ty) false.
+Definition reserved_sel (k : nat) (l : lang) (t : str) : bool := is_reserved (cfg_sel k l) t.
+Definition pattern_sel (k : nat) (l : lang) (ty t : str) : bool := matches_reserved_pattern py_uni (cfg_sel k l) ty t.
+(* the same call through the regenerated step list *)
+Definition strop_sel_pipeline (k : nat) (l : lang) : str -> str -> res :=
+  run_pipeline py_uni py_isspace (cfg_sel k l) strop_pipeline.
